@@ -91,6 +91,11 @@ func VerifH_C06_postprocess() {
 	fails := kind == "json" && verifrt.Choice("extractor-fails", 2) == 1
 	var assets, outs []string
 	for i := 0; i < na; i++ {
+		if i == 1 {
+			// an embedded resource that lives under the page's own URL (only the page itself is filtered out, not what is below it)
+			assets = append(assets, "http://site.example/p"+string(rune('0'+depth))+"/i.png")
+			continue
+		}
 		assets = append(assets, "http://cdn.example/a"+string(rune('0'+i))+".png")
 	}
 	for i := 0; i < no; i++ {
@@ -214,6 +219,21 @@ func VerifH_C06_postprocess() {
 			}
 			verifrt.Cover("outlink-expected")
 			verifrt.Assert(found, "C07 anchor targets are handed to the queue whenever the hop limit allows")
+		}
+	}
+	// sufficiency for assets (C07): what the extractor found in a successfully fetched document is fetched as a child,
+	// unless capture is off, the depth limit applies, or the document is itself an HTML page embedded as an asset
+	if !isRedirect && status == 200 && kind != "" && !fails && hadBody && !domains && !cfg.DisableAssetsCapture && assetDepth <= 2 &&
+		!(assetDepth == 1 && kind == "html") {
+		for _, want := range assets {
+			found := false
+			for _, k := range kids {
+				if k.GetURL().Raw == want {
+					found = true
+				}
+			}
+			verifrt.Cover("asset-expected")
+			verifrt.Assert(found, "C07 every embedded resource the extractor found is fetched as an asset")
 		}
 	}
 	// the body is closed and released whatever happened (C16)
